@@ -683,6 +683,11 @@ func (g *Gen) instr(in ssa.Instruction) {
 		g.call(in, &in.Call)
 	case *ssa.Defer:
 		g.defers = append(g.defers, in)
+		// the point at which the deferred call is registered can be named in call-site clauses as
+		// "defer:<callee>" (`at call "defer:(*T).m$3" mark registered`): what is registered before
+		// a call runs also when that call panics, which the sequential model of this engine cannot
+		// say in any other way
+		g.callSiteClauses("defer:"+g.siteLabel(&in.Call), 1, nil, in.Pos())
 	case *ssa.Go:
 		g.flag("go-statement")
 		g.havocAll()
